@@ -1,5 +1,5 @@
 CONSTANTS
-  SampleMod = 30
+  SampleMod = 90
   MaxOps = 1
   Scripted = FALSE
   ExcuseKF = FALSE
